@@ -166,6 +166,8 @@ func runC07(c *Ctx) {
 		c07UpstreamRegisteredBeforeUse(c, "RESP")
 	}
 	c.R.Floor("PARSENUM", parseNumSites(c, "PARSENUM", []string{"component/dns"}, func(f string) bool { return f == "function_parser.go" }), 1)
+	scanIsStateless(c, "SCAN", "component/dns", "RequestMatcher.Match", []string{"goodSubrule", "badRule"})
+	scanIsStateless(c, "SCAN", "component/dns", "ResponseMatcher.Match", []string{"goodSubrule", "badRule"})
 }
 
 func c07Reject(c *Ctx) {
